@@ -293,6 +293,7 @@ def run_pcorr_case(ctx, inp):
         res.violation("property-violation", "g[%d] is NaN although its corrected pair histogram is "
                       "%r: an undefined weight in lower bin %d poisons all higher bins"
                       % (poisoned[0], og[poisoned[0]], degenerate.index(True)), impl=g,
+                      broken="pair_correlation: NaN weight in a lower bin",
                       signature=dict(stream="pcorr", what="nan-weight-poisons-later-bins"))
         for k in poisoned:
             degenerate[k] = True          # not compared any further
@@ -346,10 +347,15 @@ def run_arc_case(ctx, inp):
     dist = np.array([r for _, r in items])
     pos = np.array([p for p, _ in items])
     boxa = np.array(box)
-    if dim == 2:
-        got = static.arclen_2d_bounded(dist.copy(), pos, boxa)
-    else:
-        got = static.area_3d_bounded(dist.copy(), pos, boxa)
+    try:
+        if dim == 2:
+            got = static.arclen_2d_bounded(dist.copy(), pos, boxa)
+        else:
+            got = static.area_3d_bounded(dist.copy(), pos, boxa)
+    except Exception as e:  # noqa
+        res.violation("property-violation", "edge correction raised %r" % e,
+                      signature=dict(stream="arc", what="raises", dim=dim))
+        return res
     # a single item goes through the `_protect_mask` special case: run the first one alone too
     if dim == 2:
         got1 = static.arclen_2d_bounded(dist[:1].copy(), pos[:1], boxa)
